@@ -189,6 +189,11 @@ func exploreOnce(opt Options, body func(), judge Judge) *Stats {
 			st.Pruned++
 			pts = pts[:len(pts)-1]
 		} else {
+			if e.Status() == StepLimit && e.WallLimitHit {
+				st.Exhaustive = false
+				st.CapHit = "one execution exceeded the wall-clock limit"
+				break
+			}
 			if e.Status() == StepLimit {
 				if opt.HorizonClause != "" {
 					st.Violations = append(st.Violations, Violation{Failure: Failure{Clause: opt.HorizonClause, Msg: fmt.Sprintf("the execution is still running after %d steps (threads or timers never come to rest)", opt.MaxSteps), Sig: "no-termination-within-horizon"}, Choices: choicesOf(e.Points), RacySites: ActiveRacySites()})
